@@ -2,8 +2,13 @@
 
 CFG = {'module': 'Dnp3.Props.C13',
  'gen': [],
- 'engines': ['outstation'],
- 'monitors': ['restart_bit_interval', 'app_bits_mirror', 'broadcast_bit_rule'],
+ 'engines': ['outstation', 'outstationdb', 'db'],
+ 'monitors': ['restart_bit_interval',
+              'app_bits_mirror',
+              'broadcast_bit_rule',
+              'class_bits_exact',
+              'overflow_bit_interval',
+              'overflow_flag_interval'],
  'rule': 'engine outstation: session histories (3-40 ops) from a weighted grammar over every function code '
          'the outstation executes (+ unknown codes, response codes, bad control flags, truncated fragments), '
          'valid and malformed object headers, byte-identical repeats, solicited/unsolicited confirms with '
@@ -11,18 +16,29 @@ CFG = {'module': 'Dnp3.Props.C13',
          'broadcasts of all three modes, foreign masters, self address, disconnects; configurations over tx '
          'sizes 249..2048, unsolicited on/off, retry limits none/0/1/3, any-master, broadcast, max-controls. '
          'Each history runs the real task and the model; monitors evaluate the property predicates on the '
-         "implementation's trace with an independent decoder.",
+         "implementation's trace with an independent decoder. engine outstationdb: the same session grammar "
+         'over a populated database (binary and analog points in classes 0-3, event buffers of 1-20 per '
+         'type, big databases forcing multi-fragment READ series), update transactions interleaved at every '
+         'point, READs by class / type / range / variation / count, unsolicited series, confirms right / '
+         'wrong / late / missing, timeouts, aborting requests, ENABLE/DISABLE_UNSOLICITED, disconnects; an '
+         'event ledger (recorded / carried / released) and a mirrored reference database are kept by the '
+         'monitors. engine db: operation sequences straight on the real Database (add / update / select by '
+         'every READ header form / write_response_headers at capacities 0..2048 / write_unsolicited / '
+         'clear_written_events / reset), compared with the Lean database model; ',
  'trusted_base': ['hand-written Lean model of outstation/session.rs (+ control/select.rs, '
                   'control/collection.rs, deferred.rs, transport/reader.rs pop_request) tied by differential '
                   'execution of the REAL OutstationTask (real link layer, transport, parser, session, '
                   'database) over an in-memory pipe on a paused clock',
                   'application / control-handler callbacks are scripted identically on both sides',
-                  'database component behind the `Db` interface (event buffer / static database)'],
+                  'hand-written Lean model of outstation/database/** (event buffer, static database, '
+                  'response writers) tied by differential execution of the real Database (engine db) and of '
+                  'the real OutstationTask (engine outstationdb)'],
  'assumptions': ['tokio timer and Notify semantics; xxh64 collision-free on compared fragments (model '
                  'compares octets)'],
- 'level_text': 'Lean theorems over the session model (exact IIN formula of every fresh response; restart / '
-               'broadcast / application bits as state invariants) for all histories; class and overflow bits '
-               'are proved in the database component; tie: correspondence + IIN ledger monitor on the '
-               "implementation's trace",
+ 'level_text': 'Lean theorems for all states / histories: session model (exact IIN formula of every fresh '
+               'response; restart, broadcast and application bits) and database model (class bits = an '
+               'unwritten event of the class is buffered, proved for histories without D3; overflow bit '
+               'interval); tie: correspondence of the real task and the real Database vs the models + IIN '
+               'ledger monitors',
  'level_note': 'trusted: Lean kernel, harness, scripted callbacks; Rust modelled not verified; runtime '
                'scheduling outside the model'}
